@@ -1,4 +1,4 @@
-"""Self-test of the checkers (thorough tier): every kept seeded change (/verif/seeded/*/patch.diff) whose
+"""Self-test of the checkers (thorough tier): (1) AST-computed single edits from sa/astmut.py, and (2) every kept seeded change (/verif/seeded/*/patch.diff) whose
 meta.json names detecting rules for this property is applied to a scratch copy of /repo's working tree
 (under a temp dir, removed afterwards); the property's rules are re-run on the copy and must report a NEW
 violation of one of the named rules.  Only the checker runs -- rope is never executed.
@@ -36,15 +36,64 @@ def _seeds_for(prop: str) -> List[dict]:
     return out
 
 
+def _ast_variants(prop: str, known, result) -> None:
+    """AST-computed single edits (sa/astmut.py): each must yield a new violation of one of its expected rules."""
+    import ast
+
+    from . import astmut
+    from .run import Ctx, load_rules
+
+    specs = astmut.specs_for(prop)
+    if not specs:
+        return
+    tmp = tempfile.mkdtemp(prefix=f"verif-astmut-{prop}-")
+    try:
+        shutil.copytree(os.path.join(repo_root(), "rope"), os.path.join(tmp, "rope"), ignore=shutil.ignore_patterns("__pycache__"))
+        for _, name, rel, edit, rules in specs:
+            path = os.path.join(tmp, rel)
+            if not os.path.exists(path):
+                result["skipped"].append(f"ast:{name}: {rel} missing")
+                continue
+            original = open(path, encoding="utf-8").read()
+            try:
+                tree = ast.parse(original)
+                applied = edit(tree)
+                if not applied:
+                    result["skipped"].append(f"ast:{name}: edit no longer applies")
+                    continue
+                ast.fix_missing_locations(tree)
+                new_src = ast.unparse(tree)
+                compile(new_src, rel, "exec")
+                open(path, "w", encoding="utf-8").write(new_src)
+                result["variants"] += 1
+                ctx = Ctx("quick", 0, root=tmp)
+                res = report.Results(prop)
+                load_rules(prop).check(ctx, res)
+                new = [i for i in res.instances if i.status == report.FAIL and i.key not in known]
+                hit = [i for i in new if i.rule in rules]
+                if hit:
+                    result["detected"] += 1
+                    result["names"].append(f"ast:{name}: {hit[0].key}")
+                else:
+                    result["failed"].append(f"ast:{name}: expected a new violation of {rules}, got {[i.key for i in new][:4]}")
+            except Exception as e:
+                result["failed"].append(f"ast:{name}: {type(e).__name__}: {e}")
+            finally:
+                open(path, "w", encoding="utf-8").write(original)
+    finally:
+        shutil.rmtree(tmp, ignore_errors=True)
+
+
 def run(prop: str, seed: int) -> Dict:
     from .run import Ctx, load_rules
 
     seeds = _seeds_for(prop)
     result = {"variants": 0, "detected": 0, "failed": [], "skipped": [], "names": []}
+    known = {k["key"] for k in report.load_known() if k.get("property") == prop and k.get("status") == "open"}
+    _ast_variants(prop, known, result)
     if not seeds:
         result["note"] = "no kept seeded change names a rule of this property"
         return result
-    known = {k["key"] for k in report.load_known() if k.get("property") == prop and k.get("status") == "open"}
     for sd in seeds:
         tmp = tempfile.mkdtemp(prefix=f"verif-selftest-{prop}-")
         try:
